@@ -67,6 +67,31 @@ pub fn run_marwood_collecting(forms: &[Cell], every: u64) -> Vec<MwForm> {
     forms.iter().map(|f| run_form(&mut vm, f)).collect()
 }
 
+/// The session runs in a fresh VM whose live data sits just under the collector's 75 % utilisation threshold (live
+/// ballast; run_gc itself grows the heap when utilisation stays above 75 % after a sweep, so "just under" is the
+/// highest stable level). A little garbage then tips the heap over the threshold, so the collections the production
+/// code asks for (end of an evaluation, every 8192 instructions, any other call of run_gc) really mark and sweep.
+/// Returns the results and the number of collections that ran during the session.
+pub fn run_marwood_high_utilisation(forms: &[Cell]) -> (Vec<MwForm>, u64) {
+    let mut vm = MwVm::new();
+    let _ = vm.vm.eval_text("(define ballast-zz '())");
+    for _ in 0..200 {
+        vm.vm.verif_force_gc();
+        let s = vm.vm.verif_stats();
+        let target = s.heap_capacity * 745 / 1000;
+        let gap = target.saturating_sub(s.heap_used);
+        if gap <= s.heap_capacity / 400 {
+            break;
+        }
+        let step = gap.min((s.heap_capacity / 100).max(8));
+        let _ = vm.vm.eval_text(&format!("(set! ballast-zz (let loop ((i 0) (acc ballast-zz)) (if (< i {}) (loop (+ i 1) (cons i acc)) acc)))", step));
+    }
+    vm.vm.verif_reset_counters();
+    let r: Vec<MwForm> = forms.iter().map(|f| run_form(&mut vm, f)).collect();
+    let n = vm.vm.verif_stats().collections;
+    (r, n)
+}
+
 fn same_mw(a: &MwForm, b: &MwForm) -> bool {
     let out_same = a.output.len() == b.output.len() && a.output.iter().zip(b.output.iter()).all(|(x, y)| x.0 == y.0 && x.1 == y.1);
     let o = match (&a.outcome, &b.outcome) {
@@ -292,6 +317,11 @@ pub fn check_session(sess: &Session, rep: &mut Report, case: (u64, u64), verbose
     let b = if every > 0 && case.1 % 2 == 0 {
         rep.count("second_fresh_vm_run_with_forced_collections", 1);
         run_marwood_collecting(&sess.forms, 1 + (case.1 / 2) % every)
+    } else if every > 0 && case.1 % 4 == 1 {
+        let (r, n) = run_marwood_high_utilisation(&sess.forms);
+        rep.count("second_fresh_vm_run_at_high_heap_utilisation", 1);
+        rep.count("natural_collections_in_high_utilisation_runs", n);
+        r
     } else {
         run_marwood(&sess.forms)
     };
